@@ -44,7 +44,7 @@ func init() {
 	registerRule(&RuleDef{ID: "T-WIRE", Min: 6, Doc: "boolean mode arguments are wired to the required constant", Run: ruleTWIRE})
 	registerRule(&RuleDef{ID: "T-GUARD", Min: 3, Doc: "must-pass-through guards (Mutable, Go type, assignability)", Run: ruleTGUARD})
 	registerRule(&RuleDef{ID: "T-REFPOS", Min: 3, Doc: "every carrier / position of a reference is inspected", Run: ruleTREFPOS})
-	registerRule(&RuleDef{ID: "Q-PRE", Min: 3, Doc: "index lookups only pre-filter; rows are returned after every condition was evaluated", Run: ruleQPRE})
+	registerRule(&RuleDef{ID: "Q-PRE", Min: 2, Doc: "index lookups only pre-filter; rows are returned after every condition was evaluated", Run: ruleQPRE})
 	registerRule(&RuleDef{ID: "F-PAIR", Min: 3, Doc: "monitor filter pairs each kind of change with the select flag of the same name", Run: ruleFPAIR})
 	registerRule(&RuleDef{ID: "PM-ONCE", Min: 2, Doc: "one notification round per transaction, covering every monitor", Run: rulePMONCE})
 	registerRule(&RuleDef{ID: "DEFER-APPEND", Min: 5, Doc: "buffered notifications are appended and replayed in arrival order", Run: ruleDEFERAPPEND})
@@ -221,7 +221,7 @@ func init() {
 	add("C03", "A3-DISTINCT")
 	add("C10", "A3-DISTINCT")
 	registerRule(&RuleDef{ID: "X7", Min: 5, Doc: "validate then write: no error return after an index/row entry was written", Run: ruleX7})
-	registerRule(&RuleDef{ID: "S-LOOP", Min: 2, Doc: "per-table containers of the monitor filter are created inside the per-table loop", Run: ruleSLOOP})
+	registerRule(&RuleDef{ID: "S-LOOP", Min: 1, Doc: "per-table containers of the monitor filter are created inside the per-table loop", Run: ruleSLOOP})
 	registerRule(&RuleDef{ID: "T-INITREFS", Min: 1, Doc: "existing references are loaded before a row's reference changes are applied", Run: ruleTINITREFS})
 	registerRule(&RuleDef{ID: "K6", Min: 1, Doc: "inside a map only a nested map is refused", Run: ruleK6})
 	registerRule(&RuleDef{ID: "G-CLONE", Min: 2, Doc: "model.Clone/CloneInto never copy by shallow reflective assignment", Run: ruleGCLONE})
